@@ -180,7 +180,7 @@ class C05(Check):
 
     def cases(self):
         return ([{"kind": "config", "config": i} for i in range(len(self.configs))]
-                + [{"kind": "sequence", "order": o} for o in range(3)])
+                + [{"kind": "sequence", "order": o} for o in range(4)])
 
     def sequence(self, case, stats):
         """the small configurations one after the other on ONE protocol + dongle object over a
@@ -197,8 +197,18 @@ class C05(Check):
         elif case["order"] == 2:
             cfgs = [c for pair in zip(cfgs, cfgs) for c in pair]
 
-        def one(proto, dev, cfg):
+        def one(proto, dev, cfg, spoil=None):
             n = len(dev.held)
+            if spoil is not None:
+                # the same request met by a device that refuses it at exchange `spoil` (error status):
+                # whatever the manager had in flight must not leak into the next request
+                w = spoil[0]
+                base = w.seq
+                w.inject = lambda world, i, apdu: ("sw", 0x6B8F) if i - base == spoil[1] else None
+                harness.handle_request(proto, copy.deepcopy(self.request_for(cfg)))
+                w.inject = None
+                dev.adv = None
+                n = len(dev.held)
             reply, exc = harness.handle_request(proto, copy.deepcopy(self.request_for(cfg)))
             held = [(h[0], h[1], [(b["raw"], b["mm_len"], b["cb"], [(x["raw"], x["mm_len"], x["cb"])
                                                                  for x in b["brothers"]]) for b in h[2]])
@@ -209,10 +219,11 @@ class C05(Check):
             dev = PowHsm(seed=b"c05-seq")
             fresh.append(one(harness.make_protocol(World(dev)), dev, cfg))
         dev = PowHsm(seed=b"c05-seq")
-        proto = harness.make_protocol(World(dev))
+        wl = World(dev)
+        proto = harness.make_protocol(wl)
         for k, cfg in enumerate(cfgs):
             stats.evaluations += 1
-            got = one(proto, dev, cfg)
+            got = one(proto, dev, cfg, spoil=(wl, 2 + k % 4) if case["order"] == 3 else None)
             stats.observe(("sequence", case["order"], cfg["kind"], got == fresh[k]), nontrivial=True)
             if got != fresh[k]:
                 vs.append(Violation("C05", "C05:history-dependence:%s" % cfg["kind"], dict(case, upto=k),
